@@ -187,12 +187,15 @@ func createFilesInTar(info *nfpm.Info, tw *tar.Writer) ([]MtreeEntry, int64, err
 
 	for _, content := range info.Contents {
 		content.Destination = files.AsRelativePath(content.Destination)
+		// .MTREE records whole seconds; the tar header must carry the same
+		// instant, not the nearest second archive/tar would round it to
+		modTime := content.ModTime().Truncate(time.Second)
 
 		switch content.Type {
 		case files.TypeDir, files.TypeImplicitDir:
 			entries = append(entries, MtreeEntry{
 				Destination: content.Destination,
-				Time:        content.ModTime().Unix(),
+				Time:        modTime.Unix(),
 				Mode:        int64(content.Mode()),
 				Type:        files.TypeDir,
 			})
@@ -201,7 +204,7 @@ func createFilesInTar(info *nfpm.Info, tw *tar.Writer) ([]MtreeEntry, int64, err
 				Name:     content.Destination,
 				Mode:     int64(content.Mode()),
 				Typeflag: tar.TypeDir,
-				ModTime:  content.ModTime(),
+				ModTime:  modTime,
 				Uname:    content.FileInfo.Owner,
 				Gname:    content.FileInfo.Group,
 			}); err != nil {
@@ -211,7 +214,7 @@ func createFilesInTar(info *nfpm.Info, tw *tar.Writer) ([]MtreeEntry, int64, err
 			if err := tw.WriteHeader(&tar.Header{
 				Name:     content.Destination,
 				Linkname: content.Source,
-				ModTime:  content.ModTime(),
+				ModTime:  modTime,
 				Typeflag: tar.TypeSymlink,
 			}); err != nil {
 				return nil, 0, err
@@ -220,7 +223,7 @@ func createFilesInTar(info *nfpm.Info, tw *tar.Writer) ([]MtreeEntry, int64, err
 			entries = append(entries, MtreeEntry{
 				LinkSource:  content.Source,
 				Destination: content.Destination,
-				Time:        content.ModTime().Unix(),
+				Time:        modTime.Unix(),
 				Mode:        0o777,
 				Type:        content.Type,
 			})
@@ -236,7 +239,7 @@ func createFilesInTar(info *nfpm.Info, tw *tar.Writer) ([]MtreeEntry, int64, err
 				Mode:     int64(content.Mode()),
 				Typeflag: tar.TypeReg,
 				Size:     content.Size(),
-				ModTime:  content.ModTime(),
+				ModTime:  modTime,
 				Uname:    content.FileInfo.Owner,
 				Gname:    content.FileInfo.Group,
 			}
@@ -245,8 +248,8 @@ func createFilesInTar(info *nfpm.Info, tw *tar.Writer) ([]MtreeEntry, int64, err
 				header.Mode = int64(content.Mode())
 			}
 
-			if content.FileInfo != nil && !content.ModTime().IsZero() {
-				header.ModTime = content.ModTime()
+			if content.FileInfo != nil && !modTime.IsZero() {
+				header.ModTime = modTime
 			}
 
 			if content.FileInfo != nil && content.Size() != 0 {
@@ -270,7 +273,7 @@ func createFilesInTar(info *nfpm.Info, tw *tar.Writer) ([]MtreeEntry, int64, err
 
 			entries = append(entries, MtreeEntry{
 				Destination: content.Destination,
-				Time:        content.ModTime().Unix(),
+				Time:        modTime.Unix(),
 				Mode:        int64(content.Mode()),
 				Size:        content.Size(),
 				Type:        content.Type,
